@@ -127,6 +127,17 @@ func runC14(tier string, _ []string) int {
 				r.Shuffle(len(cfg.Dates), func(a, b int) { cfg.Dates[a], cfg.Dates[b] = cfg.Dates[b], cfg.Dates[a] })
 			}
 		}
+		if i%12 == 7 {
+			// a fixed corner that does not depend on the draw: a window that wraps past midnight, filtered
+			// to the last days of the month / year around the anchor (both the day it starts on and the next)
+			cfg.sMin, cfg.eMin = 20*60+r.Intn(200), 60+r.Intn(300)
+			cfg.Start, cfg.End = hhmm(r, cfg.sMin), hhmm(r, cfg.eMin)
+			cfg.Weekdays = nil
+			cfg.Dates = nil
+			for _, off := range [][]int{{3}, {3, 4}, {2, 3}, {4}, {5}}[r.Intn(5)] {
+				cfg.Dates = append(cfg.Dates, anchor.AddDate(0, 0, off).Format("2006-01-02"))
+			}
+		}
 		kind := "normal"
 		if cfg.eMin == cfg.sMin {
 			kind = "equal"
